@@ -33,3 +33,14 @@ PANEL(s16, std::chrono::duration<std::int16_t>)
 PANEL(min8, std::chrono::duration<std::int8_t, std::ratio<60>>)
 PANEL(min16, std::chrono::duration<std::int16_t, std::ratio<60>>)
 PANEL(min64, std::chrono::duration<std::int64_t, std::ratio<60>>)
+
+// The public templates that USE split_seconds: time_zone::lookup / next_transition / prev_transition and convert() for a
+// time_point<D>.  The seconds overloads they forward to are external here (contracts in the harness record the instant they receive).
+#define GLUE(name, ...)                                                                                                            \
+  EXP void w_glue_lookup_##name(std::int64_t c, const time_zone* tz, time_zone::absolute_lookup* out) { *out = tz->lookup(time_point<__VA_ARGS__>(__VA_ARGS__(static_cast<typename __VA_ARGS__::rep>(c)))); } \
+  EXP int w_glue_next_##name(std::int64_t c, const time_zone* tz, time_zone::civil_transition* tr) { return tz->next_transition(time_point<__VA_ARGS__>(__VA_ARGS__(static_cast<typename __VA_ARGS__::rep>(c))), tr); } \
+  EXP int w_glue_prev_##name(std::int64_t c, const time_zone* tz, time_zone::civil_transition* tr) { return tz->prev_transition(time_point<__VA_ARGS__>(__VA_ARGS__(static_cast<typename __VA_ARGS__::rep>(c))), tr); } \
+  EXP void w_glue_convert_##name(std::int64_t c, const time_zone* tz, civil_second* out) { *out = convert(time_point<__VA_ARGS__>(__VA_ARGS__(static_cast<typename __VA_ARGS__::rep>(c))), *tz); }
+GLUE(ms, std::chrono::milliseconds)
+GLUE(fs, detail::femtoseconds)
+GLUE(min64, std::chrono::duration<std::int64_t, std::ratio<60>>)
